@@ -153,6 +153,10 @@ func c04alphabet(names int) []string {
 		a = append(a, gw.Ev("broker PUBLISH "+n+" q1 + REGACK + PUBACK", gw.EvB("", refmqtt.EncPublish(n, 1, false, false, mid, []byte("x"))),
 			gw.EvC("", gw.Regack(0, mid, 0)), gw.EvC("", gw.Puback(0, mid, 0))))
 	}
+	// names that are predefined for the client in most of the configurations: registering or subscribing to them
+	// by name is legal, and the id handed out for them must not be a predefined one either
+	a = append(a, gw.EvC("REGISTER p/2", gw.Register(0, 51, "p/2")),
+		gw.Ev("SUBSCRIBE p/3 + SUBACK", gw.EvC("", gw.SubscribeName(52, "p/3", 0, false)), gw.EvB("", refmqtt.EncSuback(52, 0))))
 	a = append(a, gw.EvB("broker PUBLISH w/9 q0 (no REGACK)", refmqtt.EncPublish("w/9", 0, false, false, 0, []byte("x"))))
 	return a
 }
